@@ -278,7 +278,15 @@ func runPool(raw Sx) (Sx, Sx) {
 		c.Add(ws)
 		func() {
 			defer func() { recover() }()
-			srv := httptest.NewServer(c)
+			// (a hijacked connection is no longer the server's business: Close does not wait for its handler, whose
+			// deferred release would then reach whatever provider the NEXT case has installed - the wait is ours)
+			var inflight sync.WaitGroup
+			srv := httptest.NewServer(http.HandlerFunc(func(w http.ResponseWriter, r *http.Request) {
+				inflight.Add(1)
+				defer inflight.Done()
+				c.ServeHTTP(w, r)
+			}))
+			defer inflight.Wait()
 			defer srv.Close()
 			for k := 0; k < 2; k++ {
 				hr, _ := http.NewRequest("GET", srv.URL+"/hj", nil)
